@@ -93,7 +93,7 @@ Proof. exact missing_fragment_example. Qed.
 From CGV Require Import Base.NxGraph Reader.ReaderImpl Reader.ReaderLemmas Reader.ReaderSim Reader.ReaderRing
      Resolve.GraphOps Resolve.Pipeline Frag.NDict Frag.StripImpl Frag.FragText
      Reader.Grammar Reader.Lin Reader.ReaderCheck Reader.ReaderUnit
-     Dialect.ReaderFaults Dialect.FragAnnot Dialect.CopyAnnot Dialect.ResolveFaults Dialect.MachineFaults Dialect.MachineInject.
+     Dialect.ReaderFaults Dialect.FragAnnot Dialect.CopyAnnot Dialect.ResolveFaults Dialect.MachineFaults Dialect.MachineInject Dialect.DriverFaults.
 
 (** ---- the real reader model (Reader/ReaderImpl.v) ---- *)
 (** an error inside the loop iteration of ANY node (= any reachable loop state) is the result *)
@@ -248,6 +248,82 @@ Theorem C20_resolver_error_is_the_result : forall legacy aa fd prev tr e,
   resolve_step legacy aa fd prev tr = Err e.
 Proof. exact resolve_step_propagates. Qed.
 
+(** ---- the DRIVER: MoleculeResolver.from_string(s).resolve_all() (Resolve/Pipeline.v; [drive]) ---- *)
+(** an error of read_cgsmiles on the first block is what the call raises *)
+Theorem C20_driver_base_error : forall rc rf s laa legacy trs e0 rest e,
+  find_blocks s = e0 :: rest -> rc e0 = Err e -> drive rc rf s laa legacy trs = Err e.
+Proof. exact driver_base_error. Qed.
+(** ... an error of read_fragments on ANY later block, the earlier ones being read *)
+Theorem C20_driver_fragment_error : forall rc rf s laa legacy trs e0 mol pre x post e,
+  find_blocks s = e0 :: pre ++ x :: post -> rc e0 = Ok mol ->
+  Forall (fun y => exists d, rf y false = Ok d) pre -> rf x (aa_flag post laa) = Err e ->
+  drive rc rf s laa legacy trs = Err e.
+Proof. exact driver_fragment_error. Qed.
+(** ... an error of the resolve() of ANY level, the earlier ones returning *)
+Theorem C20_driver_level_error : forall rc rf s laa legacy trs st k st' trs' e,
+  from_string rc rf s laa legacy = Ok st -> returns k st trs st' trs' -> (k < st_res st)%nat ->
+  resolve st' (match trs' with t :: _ => t | [] => no_transcript end) = Err e ->
+  drive rc rf s laa legacy trs = Err e.
+Proof. exact driver_level_error. Qed.
+Theorem C20_driver_missing_fragment : forall rc rf s laa legacy trs st k st' trs' fd e,
+  from_string rc rf s laa legacy = Ok st -> returns k st trs st' trs' -> (k < st_res st)%nat ->
+  nth_error (st_dicts st') (st_counter st') = Some fd ->
+  resolve_disconnected fd (set_nodes_from (st_mol st') (S "fragname") (get_node_attributes (st_mol st') (S "atomname"))) = Err e ->
+  drive rc rf s laa legacy trs = Err e.
+Proof. exact driver_missing_fragment. Qed.
+(** read_fragments as `for fragment in split: strip_bonding_descriptors, template construction, first name wins`, for ANY
+    template construction [mk] and dict insertion [add]: a fragment text strip_bonding_descriptors refuses, anywhere in the list *)
+Theorem C20_fragments_strip_error : forall fo mk add block aa pre nt post e,
+  fragment_split block = pre ++ nt :: post ->
+  Forall (fun y => exists r g, strip_bonding_descriptors fo (snd y) = Ok r /\ mk aa (fst y) r = Ok g) pre ->
+  strip_bonding_descriptors fo (snd nt) = Err e ->
+  read_fragments_with fo mk add block aa = Err e.
+Proof. exact fragments_strip_error. Qed.
+(** END TO END: a refused annotation on any bracket atom / coarse node of any fragment definition of any block *)
+Theorem C20_driver_fragment_annotation_error : forall fo mk add rc s laa legacy trs e0 mol preB x postB preF name postF
+    toks dc pre body annot post sp e,
+  find_blocks s = e0 :: preB ++ x :: postB -> rc e0 = Ok mol ->
+  Forall (fun y => exists d, read_fragments_with fo mk add y false = Ok d) preB ->
+  fragment_split x = preF ++ (name, FragText.render (decorate toks dc)) :: postF ->
+  Forall (fun y => exists r g, strip_bonding_descriptors fo (snd y) = Ok r /\ mk (aa_flag postB laa) (fst y) r = Ok g) preF ->
+  FragText.wf toks dc = true -> excluded toks dc = false ->
+  decorate toks dc = pre ++ ITok (TBracket body annot) :: post ->
+  spec_run fo sinit pre = Ok sp -> fragment_node_parser fo (annot_text annot) = Err e ->
+  drive rc (read_fragments_with fo mk add) s laa legacy trs = Err e.
+Proof. exact driver_fragment_annotation_error. Qed.
+(** END TO END, base block of the documented grammar read by ReaderImpl.read_cgsmiles: the three injected reader faults *)
+Theorem C20_driver_grammar_annotation_error : forall fo rf a, Grammar.wf fo a = true -> has_branch_mult a = false ->
+  class_C04 true a = 0%nat -> forall s rest laa legacy trs, find_blocks s = print true a :: rest ->
+  forall ts1 nm n ts2 y nm' e,
+  m_run fo (ts1 ++ TNode nm n :: ts2) m_init = Ok y -> Grammar.toks (expand_branches a) = ts1 ++ TNode nm' n :: ts2 ->
+  parse_graph_base_node fo nm' = Err e -> drive (read_cgsmiles fo) rf s laa legacy trs = Err e.
+Proof. exact driver_grammar_annotation_error. Qed.
+Theorem C20_driver_grammar_dangling : forall fo rf a, Grammar.wf fo a = true -> has_branch_mult a = false ->
+  class_C04 true a = 0%nat -> forall s rest laa legacy trs, find_blocks s = print true a :: rest ->
+  forall ts1 ts2 o m y,
+  m_run fo (ts1 ++ ts2) m_init = Ok y -> ring_occurrences m (ts1 ++ ts2) = 0%nat ->
+  (forall x1, m_run fo ts1 m_init = Ok x1 -> m_prev x1 <> None) -> Grammar.toks (expand_branches a) = ts1 ++ TRing o m :: ts2 ->
+  drive (read_cgsmiles fo) rf s laa legacy trs = Err (ESyntax (S "dangling")).
+Proof. exact driver_grammar_dangling. Qed.
+Theorem C20_driver_grammar_duplicate : forall fo rf a, Grammar.wf fo a = true -> has_branch_mult a = false ->
+  class_C04 true a = 0%nat -> forall s rest laa legacy trs, find_blocks s = print true a :: rest ->
+  forall ts1 nu o m syms nv o' ts2 x1 au av,
+  m_run fo ts1 m_init = Ok x1 -> ring_occurrences m ts1 = 0%nat ->
+  parse_graph_base_node fo nu = Ok au -> parse_graph_base_node fo nv = Ok av ->
+  Forall (fun t => match t with TSym _ => True | _ => False end) syms ->
+  Grammar.toks (expand_branches a) = ts1 ++ TNode nu 1 :: TRing o m :: syms ++ TNode nv 1 :: TRing o' m :: ts2 ->
+  drive (read_cgsmiles fo) rf s laa legacy trs = Err (ESyntax (S "double")).
+Proof. exact driver_grammar_duplicate. Qed.
+(** non-vacuity: the driver on six concrete strings (valid, two '=', dangling, double, non-numeric weight, missing fragment) *)
+Example C20_nonvacuous_driver :
+  outcome (S "{[#A][#A]}.{#A=[$][#X][$]}") = None /\
+  outcome (S "{[#A][#A;a=b=c]}.{#A=[$][#X][$]}") = Some (ESyntax (S "toomany_eq")) /\
+  outcome (S "{[#A]1[#A]}.{#A=[$][#X][$]}") = Some (ESyntax (S "dangling")) /\
+  outcome (S "{[#A]1[#A]1}.{#A=[$][#X][$]}") = Some (ESyntax (S "double")) /\
+  outcome (S "{[#A][#A]}.{#A=[$][#X;w=abc][$]}") = Some EType /\
+  outcome (S "{[#A][#B]}.{#A=[$][#X][$]}") = Some (ESyntax (S "nofrag")).
+Proof. exact driver_example. Qed.
+
 Example C20_nonvacuous_reader :
   read_cgsmiles (fun _ => None) (S "{[#A]1[#B]([#C]2[#D]2)[#E]1}") = Err (ESyntax (S "double")) /\
   read_cgsmiles (fo_of_table [(S "1", Some (S "1.0"))]) (S "{[#A]([#B;q=1])[#C;q=x=y]}") = Err (ESyntax (S "toomany_eq")) /\
@@ -280,3 +356,13 @@ Print Assumptions C20_injected_dangling_rejected.
 Print Assumptions C20_injected_duplicate_neighbours.
 Print Assumptions C20_grammar_injected_dangling.
 Print Assumptions C20_grammar_injected_duplicate.
+Print Assumptions C20_driver_base_error.
+Print Assumptions C20_driver_fragment_error.
+Print Assumptions C20_driver_level_error.
+Print Assumptions C20_driver_missing_fragment.
+Print Assumptions C20_fragments_strip_error.
+Print Assumptions C20_driver_fragment_annotation_error.
+Print Assumptions C20_driver_grammar_annotation_error.
+Print Assumptions C20_driver_grammar_dangling.
+Print Assumptions C20_driver_grammar_duplicate.
+Print Assumptions C20_nonvacuous_driver.
